@@ -436,7 +436,11 @@ def replay_failure(group, tree, scratch, res, tier, pid):
             uniq.append(t)
     tests = uniq[:4]
     reproduced = False
-    if not tests and rparsed.get("verdict") is None:
+    rtext = open(rlog, errors="replace").read()
+    # a playback run that ended in memory exhaustion still prints a verdict line (FAILED) but has
+    # no result for the checks: that is "not produced", not "not reproduced"
+    died = any(m in rtext for m in ("bad_alloc", "ut of memory", "CBMC failed", "Status: ERROR", "SIGKILL", "signal: 9", "signal: 6"))
+    if not tests and (rparsed.get("verdict") is None or died):
         # The playback run itself did not finish: with trace generation CBMC cannot slice the
         # formula, which multiplies memory (DESIGN.md 2.5). The failed checks above are the
         # verdict of the normal (sliced) run of the same harness; source-level stubs are ordinary
